@@ -5,6 +5,7 @@ import (
 	"github.com/gorilla/websocket"
 	"net"
 	"net/http"
+	"net/http/httptest"
 	"os"
 	"runtime"
 	"strings"
@@ -16,6 +17,7 @@ import (
 	"go.nanomsg.org/mangos/v3/protocol/pair"
 	"go.nanomsg.org/mangos/v3/protocol/rep"
 	"go.nanomsg.org/mangos/v3/protocol/req"
+	"go.nanomsg.org/mangos/v3/transport/ws"
 
 	"verifharness/rec"
 	"verifharness/sim"
@@ -337,6 +339,101 @@ func TestCloseReal(t *testing.T) {
 			r.Emit("rcensus", "n", len(g), "g", fmt.Sprint(g))
 		}()
 		out.Add("closereal-hsq-"+tn, rec.Ev{"tran": tn}, tn+" handshaked, not accepted", sim.Result{Lines: r.Lines(), Status: status, Detail: detail})
+	}
+	// the same for WebSocket, whose "handshake" is the HTTP upgrade: connections upgraded but not yet accepted are
+	// parked by their HTTP handlers; both when the listener runs its own HTTP server and when the application's
+	// server hosts it (WsListener.tla: Close closes what is parked, whoever serves)
+	for _, mode := range []string{"own", "hosted"} {
+		r := rec.New()
+		status, detail := "ok", ""
+		func() {
+			defer func() {
+				if x := recover(); x != nil {
+					status, detail = "panic", fmt.Sprint(x)
+				}
+			}()
+			r.Emit("rbase", "g", len(waitNoGoroutines(2*time.Second)))
+			s, _ := pair.NewSocket()
+			gate := make(chan struct{})
+			entered := make(chan struct{}, 8)
+			s.SetPipeEventHook(func(ev mangos.PipeEvent, p mangos.Pipe) {
+				if ev == mangos.PipeEventAttaching {
+					entered <- struct{}{}
+					<-gate
+				}
+			})
+			var tr realTran
+			for _, x := range realTrans() {
+				if x.name == "ws" {
+					tr = x
+				}
+			}
+			l, err := s.NewListener(tr.addr(2350), nil)
+			if err != nil {
+				panic(err)
+			}
+			url := ""
+			if mode == "hosted" {
+				h, err := l.GetOption(ws.OptionWebSocketHandler)
+				if err != nil {
+					panic(err)
+				}
+				srv := httptest.NewServer(h.(http.Handler))
+				defer srv.Close()
+				url = "ws" + strings.TrimPrefix(srv.URL, "http") + "/"
+			}
+			if err = l.Listen(); err != nil {
+				panic(err)
+			}
+			if mode == "own" {
+				url = l.Address()
+			}
+			var conns []*websocket.Conn
+			for i := 0; i < 3; i++ {
+				d := websocket.Dialer{HandshakeTimeout: 2 * time.Second, Subprotocols: []string{"pair.sp.nanomsg.org"}}
+				c, _, err := d.Dial(url, http.Header{})
+				if err != nil {
+					panic(err)
+				}
+				conns = append(conns, c)
+				if i == 0 {
+					select { // the accept loop is now inside the hook
+					case <-entered:
+					case <-time.After(3 * time.Second):
+					}
+				}
+			}
+			time.Sleep(100 * time.Millisecond) // the other two are parked meanwhile
+			cdone := make(chan error, 1)
+			go func() { cdone <- s.Close() }()
+			var cerr interface{} = "hung"
+			select {
+			case err := <-cdone:
+				cerr = err
+				close(gate)
+			case <-time.After(time.Second):
+				close(gate)
+				select {
+				case err := <-cdone:
+					cerr = err
+				case <-time.After(5 * time.Second):
+				}
+			}
+			r.Emit("rclose", "sock", "hq", "r", cerr)
+			for _, c := range conns {
+				_ = c.SetReadDeadline(time.Now().Add(2 * time.Second))
+				_, _, err := c.ReadMessage()
+				ne, isnet := err.(net.Error)
+				r.Emit("rhsdrop", "closed", err != nil && !(isnet && ne.Timeout()))
+			}
+			// with the peers still connected nothing of the closed socket is left (no parked HTTP handler)
+			g := waitNoGoroutines(3 * time.Second)
+			r.Emit("rcensus", "n", len(g), "g", fmt.Sprint(g))
+			for _, c := range conns {
+				_ = c.Close()
+			}
+		}()
+		out.Add("closereal-hsq-ws-"+mode, rec.Ev{"tran": "ws"}, "ws ("+mode+" HTTP server) upgraded, not accepted", sim.Result{Lines: r.Lines(), Status: status, Detail: detail})
 	}
 	// inproc: a Dial that is waiting for the busy listener when that listener's socket closes must come back
 	{
